@@ -544,3 +544,49 @@ func leadsOnlyToErrorReturn(b *ssa.BasicBlock) bool {
 	}
 	return true
 }
+
+func init() {
+	register("C12", ruleC12ExecCallers, ruleC09CacheKey, ruleSelectorCacheDiscipline)
+	register("C14", ruleC12ExecCallers)
+}
+
+// execCallers: who may run a query with exec() (without completing it): the sites that keep the nested rows
+// by reference, so that the nested post-processors (handed to the parent) resolve the async slots in place.
+var execCallers = map[string]string{
+	"(*Query).execAndPostProcess": "completes the query itself: waits, then runs the post-processors",
+	"BuildFromAliasedTable":       "derived table: the rows are kept by reference (wrapped under the alias)",
+	"SubqueryExpr":                "row-scoped subquery: the row list is stored as one value",
+	"ExistExpr":                   "EXISTS: only the emptiness of the rows is used",
+}
+
+func ruleC12ExecCallers(c *Ctx) {
+	c.Doc("c12.exec-callers", "who may call: (*Query).exec — which returns rows that may still hold unresolved async slots (*any) — is called only by execAndPostProcess and by the enumerated nested-query sites that keep the nested rows by reference (derived table, row-scoped subquery, EXISTS; their wait/post-processor hand-over is c07.nested-discipline); every other consumer (CTE thunk, union branch, inner arrays) must use execAndPostProcess, because it copies the rows' values into new rows")
+	exec := c.P.Method(modPath, "Query", "exec")
+	if exec == nil {
+		c.Unknown("c12.exec-callers", "(*Query).exec", "-", "anchor lost")
+		return
+	}
+	n := 0
+	for _, f := range c.P.ModFuncs {
+		if len(f.TypeArgs()) > 0 {
+			continue
+		}
+		root := f
+		for root.Parent() != nil {
+			root = root.Parent()
+		}
+		allInstrs(f, func(_ *ssa.BasicBlock, in ssa.Instruction) {
+			ci, ok := in.(ssa.CallInstruction)
+			if !ok || ci.Common().StaticCallee() != exec {
+				return
+			}
+			n++
+			rk := c.P.funcKey(root)
+			reason, allowed := execCallers[rk]
+			c.Check(allowed, "c12.exec-callers", "exec <- "+c.P.funcKey(f), c.P.Pos(ci.Pos()), reason, c.P.funcKey(f)+" runs a nested query with exec() and is not one of the enumerated by-reference sites: rows whose async slots are still unresolved can be copied into the result")
+		})
+	}
+	if n < 4 {
+		c.Unknown("c12.exec-callers", "(*Query).exec", c.P.Pos(exec.Pos()), fmt.Sprintf("only %d call sites of exec found (4 confirmed by reading)", n))
+	}
+}
